@@ -121,7 +121,11 @@ func (t *chunkTransport) broker(inbound int, done chan struct{}) {
 			case 0x30:
 				if p.QoS == 1 {
 					t.in = append(t.in, netsim.Ack(0x40, p.ID)...)
+				} else if p.QoS == 2 {
+					t.in = append(t.in, netsim.Ack(0x50, p.ID)...)
 				}
+			case 0x60:
+				t.in = append(t.in, netsim.Ack(0x70, p.ID)...)
 			case 0x50:
 				t.in = append(t.in, netsim.Ack(0x62, p.ID)...)
 			case 0x80:
@@ -218,6 +222,16 @@ func runWire(sc *WireScenario) *WireResult {
 					expect(3, ints(pl))
 					if err := cli.Publish(ctx, &mqtt.Message{Topic: fmt.Sprintf("t/%d", ci), QoS: q, Payload: pl}); err != nil {
 						addErr("publish: " + netsim.ErrClass(err))
+					}
+				case '2':
+					// outbound QoS 2: the PUBREL is written by the caller's goroutine while the reader acknowledges inbound traffic
+					pl := []byte(fmt.Sprintf("w%d-%d", ci, j))
+					expect(3, ints(pl))
+					m := &mqtt.Message{Topic: fmt.Sprintf("t/%d", ci), QoS: mqtt.QoS2, Payload: pl}
+					if err := cli.Publish(ctx, m); err != nil {
+						addErr("publish: " + netsim.ErrClass(err))
+					} else {
+						expect(6, int(m.ID))
 					}
 				case 'L':
 					// a large message (several tens of KiB): written in one BaseClient.write call like any other packet
